@@ -954,6 +954,47 @@ func main() {
 			}
 		}
 	}
+	// shapes the uri package cannot represent by contract (uri/interface.go: "does not support nested
+	// types and panic if you try to encode/decode them"): an array or object below the top level,
+	// however it is spelled (inside a map, through a recursive reference).  Whatever is admitted
+	// panics in the generated client on the first value that has the nested part.
+	nested := map[string]string{
+		"map-of-arrays":    `{"type":"object","additionalProperties":{"type":"array","items":{"type":"string"}}}`,
+		"map-of-objects":   `{"type":"object","additionalProperties":{"type":"object","properties":{"a":{"type":"string"}}}}`,
+		"recursive-object": `{"$ref":"#/components/schemas/Rec"}`,
+		"object-of-arrays": `{"type":"object","properties":{"a":{"type":"array","items":{"type":"string"}}}}`,
+		"array-of-arrays":  `{"type":"array","items":{"type":"array","items":{"type":"string"}}}`,
+		"array-of-objects": `{"type":"array","items":{"type":"object","properties":{"a":{"type":"string"}}}}`,
+		"object-of-object": `{"type":"object","properties":{"o":{"type":"object","properties":{"a":{"type":"string"}}}}}`,
+		"map-of-maps":      `{"type":"object","additionalProperties":{"type":"object","additionalProperties":{"type":"string"}}}`,
+	}
+	var nestedNames []string
+	for k := range nested {
+		nestedNames = append(nestedNames, k)
+	}
+	sort.Strings(nestedNames)
+	nestedProbed := 0
+	for _, loc := range []string{"path", "query", "header", "cookie"} {
+		for _, st := range styles {
+			for _, ex := range []bool{false, true} {
+				for _, sn := range nestedNames {
+					path, req := "/x", "false"
+					if loc == "path" {
+						path, req = "/x/{p}", "true"
+					}
+					doc := fmt.Sprintf(`{"openapi":"3.0.3","info":{"title":"t","version":"1"},"paths":{%q:{"get":{"operationId":"op","parameters":[{"name":"p","in":%q,"required":%s,"style":%q,"explode":%v,"schema":%s}],"responses":{"200":{"description":"ok"}}}}},"components":{"schemas":{"Rec":{"type":"object","properties":{"name":{"type":"string"},"next":{"$ref":"#/components/schemas/Rec"}}}}}}`, path, loc, req, st, ex, nested[sn])
+					nestedProbed++
+					if admittedDoc(doc) {
+						r.Violation(map[string]string{"class": "nested-shape-admitted-as-parameter/" + sn, "shape": sn, "in": loc}, len(sn),
+							map[string]any{"in": loc, "style": st, "explode": ex, "shape": sn, "schema": json.RawMessage(nested[sn]), "consequence": "the uri encoders panic on nested arrays / objects by contract: the generated client panics on the first value that has the nested part"})
+					}
+				}
+			}
+		}
+	}
+	r.Eval(int64(nestedProbed))
+	r.NontrivialN(int64(nestedProbed))
+	r.Set("nested_shape_documents_probed", nestedProbed)
 	r.Set("two_parameter_documents_probed", pairDocs)
 	r.Set("cells_admitted_only_next_to_another_parameter", contextCells)
 	var names []string
